@@ -304,8 +304,8 @@ class Server(object):
         jid = self.conns.get(d)
         self.log.append((jid, node))
         if node.tag == "iq" and node["xmlns"] == "encrypt" and node["type"] == "set":
-            self.uploads.append((jid, node))
             policy = self.upload_policy
+            self.uploads.append((jid, node, policy))
             if policy == "drop":
                 return
             if policy == "error":
@@ -410,7 +410,7 @@ class Server(object):
 def settle(server, clients, limit=60):
     """deliver everything in FIFO order and let every client run its deferred callbacks until nothing moves"""
     for _ in range(limit):
-        server.run(clients)
+        server.run(clients, limit=400)
         for c in clients.values():
             if not c.connected():
                 c.pump()
